@@ -57,7 +57,7 @@ func evalC16Block(cs *c16Block) (vs []*Violation) {
 	buf := []byte(sb.String())
 	add := func(rule, class, detail string) {
 		c := mkCase("C16block", "ParseHeaders", nil, buf, nil)
-		c.Extra = map[string]any{"case": cs}
+		c.Extra = map[string]any{"case": *cs} // a copy: callers re-use their case variables
 		vs = append(vs, &Violation{Property: "C16", Site: "ParseHeaders", Rule: rule, Class: class, Detail: detail, Case: c})
 	}
 	defer recoverTo3(add)
